@@ -120,11 +120,30 @@ def compare(ast, sm, schema, text, rng=None):
             exp = [nm for nm in names if nm != distinct[0]]
             if [c[0] for c in calls] != exp:
                 out.append(("none-entry-not-skipped", "called %r expected %r" % ([c[0] for c in calls], exp)))
-        # 4. case-variant duplicate
-        calls[:] = []
-        m = {nm: recorder(nm) for nm in distinct}
-        m[distinct[-1].upper()] = recorder(distinct[-1])
-        if len(m) > len(distinct):
+        # 4. case-variant duplicates: canonical spelling first / variant first / two variants /
+        #    a duplicated name the configuration does not use, for the first and the last name
+        dupmaps = []
+        for victim in (distinct[-1], distinct[0]):
+            up = victim.upper()
+            if up == victim:
+                continue
+            m = {nm: recorder(nm) for nm in distinct}
+            m[up] = recorder(victim)
+            dupmaps.append(m)
+            m = {up: recorder(victim)}
+            m.update((nm, recorder(nm)) for nm in distinct)
+            dupmaps.append(m)
+            cap = victim.capitalize()
+            if cap not in (victim, up):
+                m = {up: recorder(victim), cap: recorder(victim)}
+                m.update((nm, recorder(nm)) for nm in distinct if nm != victim)
+                dupmaps.append(m)
+        m = {"ZZ-unused": recorder("zz")}
+        m.update((nm, recorder(nm)) for nm in distinct)
+        m["zz-unused"] = recorder("zz")
+        dupmaps.append(m)
+        for m in dupmaps:
+            calls[:] = []
             try:
                 handler(m)
             except ZConfig.ConfigurationError:
@@ -133,7 +152,7 @@ def compare(ast, sm, schema, text, rng=None):
             except Exception as e:  # noqa
                 out.append(("duplicate-map:wrong-exception", repr(e)))
             else:
-                out.append(("duplicate-names-accepted", repr(sorted(m))))
+                out.append(("duplicate-names-accepted", repr(list(m))))
     else:
         try:
             handler({})
